@@ -5,6 +5,7 @@ import (
 	"fmt"
 	"math/rand"
 	"os"
+	"time"
 
 	"github.com/kwertop/gostatix"
 )
@@ -17,7 +18,10 @@ func childMain(addr string) {
 		fmt.Fprintln(os.Stderr, "child: want <kind> <metadataKey> <action>")
 		os.Exit(2)
 	}
-	gostatix.MakeRedisClient(gostatix.RedisConnOptions{Address: addr})
+	// generous timeouts: under heavy machine load a reply can take seconds; go-redis would
+	// time out after 3 s and RETRY the command - an update would then be applied twice and the
+	// run would report a difference that is not in the code under test
+	gostatix.MakeRedisClient(gostatix.RedisConnOptions{Address: addr, ConnectionTimeout: time.Minute, ReadTimeout: 30 * time.Minute, WriteTimeout: 30 * time.Minute})
 	k := raKindByName(args[0])
 	if k == nil {
 		os.Exit(2)
